@@ -57,6 +57,7 @@ enum Op {
     Update(u64),
     ClientSet(usize, u8),
     Exchange(usize),
+    Churn(usize, usize),
 }
 
 /// Which connections an operation may legitimately disconnect, and with which class of reason.
@@ -88,6 +89,8 @@ struct Sys {
     sconn: [Option<St>; IDS],
     peers: Vec<Option<Peer>>,
     expected_events: VecDeque<ServerEvent>,
+    /// the application polls events now (a lazy application lets them pile up over many operations)
+    poll_events: bool,
 }
 
 impl Sys {
@@ -186,7 +189,7 @@ impl Sys {
             }
         }
         // events: exactly the expected ones, in order
-        loop {
+        while self.poll_events {
             let got = self.server.get_event();
             let exp = self.expected_events.pop_front();
             match (got, exp) {
@@ -218,7 +221,7 @@ impl Property for C12 {
         "exploration"
     }
     fn rule(&self) -> String {
-        "A case = a history of up to 120 (quick) / 400 (thorough) public API calls on one RenetServer and up to 4 client objects (remote-style and local): add/remove connection, disconnect, disconnect_all, new_local_client, disconnect_local_client, process_local_client, set_connected/set_connecting/disconnect/disconnect_due_to_transport, send (including sends over the channel budget), broadcast, receive, genuine and garbage packets in both directions, update, get_packets_to_send. A model records for every connection object the reason observed right after the operation that first disconnected it, and which operations may disconnect which object. Oracles after every call: a disconnected object stays disconnected with the same reason, emits no packets, yields no messages (even with messages buffered), ignores packets and status setters; no operation disconnects an object it does not address; clients_id / disconnections_id / connected_clients / disconnect_reason(id) agree with the model; the server event stream equals, event by event, the one the history calls for (connect on actual insertion, disconnect on actual removal with the first reason, Transport if healthy; disconnect_local_client on a healthy connection = DisconnectedByClient, as tests/lib.rs asserts). Non-trivial: >= 2 distinct causes of disconnection and calls of >= 4 families after a disconnect. Distinct = hash of the decoded call sequence.".into()
+        "A case = a history of up to 120 (quick) / 400 (thorough) public API calls on one RenetServer and up to 4 client objects (remote-style and local): add/remove connection, disconnect, disconnect_all, new_local_client, disconnect_local_client, process_local_client, set_connected/set_connecting/disconnect/disconnect_due_to_transport, send (including sends over the channel budget), broadcast, receive, genuine and garbage packets in both directions, update, get_packets_to_send, and runs of 20-300 short-lived connections of one id; in some cases the application polls get_event only rarely, so hundreds of events are pending. A model records for every connection object the reason observed right after the operation that first disconnected it, and which operations may disconnect which object. Oracles after every call: a disconnected object stays disconnected with the same reason, emits no packets, yields no messages (even with messages buffered), ignores packets and status setters; no operation disconnects an object it does not address; clients_id / disconnections_id / connected_clients / disconnect_reason(id) agree with the model; the server event stream equals, event by event, the one the history calls for (connect on actual insertion, disconnect on actual removal with the first reason, Transport if healthy; disconnect_local_client on a healthy connection = DisconnectedByClient, as tests/lib.rs asserts). Non-trivial: >= 2 distinct causes of disconnection and calls of >= 4 families after a disconnect. Distinct = hash of the decoded call sequence.".into()
     }
     fn assumptions(&self) -> Vec<String> {
         vec![
@@ -230,11 +233,16 @@ impl Property for C12 {
         PbtCfg { cases: tier.pick(400_000, 8_000_000), max_len: tier.pick(500, 1600), shrink_ms: 120_000 }
     }
     fn required_labels(&self) -> Vec<&'static str> {
-        vec!["cause:server", "cause:client", "cause:transport", "cause:packet", "cause:budget", "after:packet", "after:setter", "after:recv_buffered", "after:flush", "local_after_server_disconnect", "remove_disconnected", "remove_healthy"]
+        vec!["cause:server", "cause:client", "cause:transport", "cause:packet", "cause:budget", "after:packet", "after:setter", "after:recv_buffered", "after:flush", "local_after_server_disconnect", "remove_disconnected", "remove_healthy", "lazy_event_polling", "long_churn"]
     }
     fn run_choices(&self, ctx: &mut Ctx) -> Outcome {
         let max_ops = ctx.tier.pick(120, 400);
-        let mut sys = Sys { server: RenetServer::new(config()), sconn: [None; IDS], peers: (0..IDS).map(|_| None).collect(), expected_events: VecDeque::new() };
+        let mut sys = Sys { server: RenetServer::new(config()), sconn: [None; IDS], peers: (0..IDS).map(|_| None).collect(), expected_events: VecDeque::new(), poll_events: true };
+        // a lazy application polls the event queue rarely (and once at the end): events pile up in between
+        let lazy = ctx.src.chance(50);
+        if lazy {
+            ctx.label("lazy_event_polling");
+        }
         let mut ops = 0;
         let mut causes: std::collections::BTreeSet<&'static str> = Default::default();
         let mut after: std::collections::BTreeSet<&'static str> = Default::default();
@@ -244,7 +252,8 @@ impl Property for C12 {
             let cid = id as u64;
             let mut sc = [Cause::None; IDS];
             let mut pc = [Cause::None; IDS];
-            let kind = ctx.src.weighted(&[10, 6, 6, 2, 8, 5, 8, 10, 3, 10, 6, 6, 8, 8, 10, 10, 6, 8, 10]);
+            sys.poll_events = !lazy || ctx.src.chance(6);
+            let kind = ctx.src.weighted(&[10, 6, 6, 2, 8, 5, 8, 10, 3, 10, 6, 6, 8, 8, 10, 10, 6, 8, 10, 0, if lazy { 6 } else { 1 }]);
             let op = match kind {
                 0 => {
                     if sys.sconn[id].is_none() {
@@ -518,6 +527,26 @@ impl Property for C12 {
                     }
                     Op::Exchange(id)
                 }
+                20 => {
+                    // many short-lived connections of one id in a row (players joining and leaving), the server ticking in between
+                    let n = ctx.src.pick(&[20usize, 70, 140, 300]);
+                    if sys.sconn[id].is_none() {
+                        for k in 0..n {
+                            sys.server.add_connection(cid);
+                            sys.expected_events.push_back(ServerEvent::ClientConnected { client_id: cid });
+                            if k % 7 == 3 {
+                                sys.server.update(Duration::from_millis(16));
+                            }
+                            sys.server.remove_connection(cid);
+                            sys.expected_events.push_back(ServerEvent::ClientDisconnected { client_id: cid, reason: DisconnectReason::Transport });
+                        }
+                        sys.peers[id] = None;
+                        if n >= 140 {
+                            ctx.label("long_churn");
+                        }
+                    }
+                    Op::Churn(id, n)
+                }
                 _ => {
                     let which = ctx.src.below(4) as u8;
                     if let Some(p) = sys.peers[id].as_mut() {
@@ -559,6 +588,11 @@ impl Property for C12 {
             };
             ctx.op(&op);
             sys.settle(&op, sc, pc)?;
+        }
+        if !sys.poll_events {
+            // the lazy application finally polls: the whole backlog must be exactly what the history calls for
+            sys.poll_events = true;
+            sys.settle(&Op::Update(0), [Cause::None; IDS], [Cause::None; IDS])?;
         }
         for c in causes.iter() {
             ctx.label(c);
